@@ -3,6 +3,8 @@
                   f<hex of the rendered float>  b0 / b1
    lines:
      K <site> <ncols> v.. <hex key>                         one key of a real encoder
+     P <site> <ncols> v.. # w.. # <hex key of v..> <hex key of w..>   two tuples through one real encoder (neighbourhood
+                                                            search of harness/c04float.go): judged by tuple equality
      G <tag> <ncols> <nrows> {id v..} # {v.. count nids ids..}      results of ONE batch
      B <tag> <ncols> <nrows> {id v..} # {nids ids..}                batches of a keyed window
      T <tag> <N> <ncols> <nrows> {id v..} # {v.. count first last nids ids..}  per-key every N-th row fires
@@ -185,17 +187,56 @@ let handle_names (mode : string) (n : int) (ncols : int) (rows : krow list) (q :
               List.exists (fun (i, rn) -> rn && (match List.nth r.kvals i with None | Some KNull -> true | _ -> false)) renamed) rows in
           if null_in_renamed && distinct_tuples rows >= 2 && res <> [] then "ok nt" else "ok"
 
+(* a value / a tuple as a reader writes it *)
+let show_text (b : n list) : string =
+  String.concat "" (List.map (fun x -> let c = int_of_n x in
+                                if c >= 32 && c < 127 && c <> 34 && c <> 92 then String.make 1 (Char.chr c)
+                                else Printf.sprintf "\\x%02x" c) b)
+let show_value (v : kvalue) : string =
+  match v with
+  | KNull -> "NULL"
+  | KStr s -> "\"" ^ show_text s ^ "\""
+  | KInt z -> show_text (k_dec_Z z)
+  | KFlt t -> show_text t
+  | KBool b -> if b then "true" else "false"
+let show_tuple (t : kvalue list) : string = "(" ^ String.concat "," (List.map show_value t) ^ ")"
+
+let site_key (site : string) (row : krow) : n list =
+  match site with
+  | "agg" -> agg_key row | "cnt" -> cnt_key row | "ses" -> ses_key row | "glb" -> glb_key row
+  | "part" -> k_key_part (List.hd (ktuple_of row))
+  | _ -> failwith "bad site"
+
 let handle (toks : string list) : string =
   match toks with
+  | "P" :: site :: ncols :: rest ->
+      let ncols = int_of_string ncols in
+      let (vs, r) = take ncols rest in
+      (match r with
+       | "#" :: r1 ->
+           let (ws, r2) = take ncols r1 in
+           (match r2 with
+            | [ "#"; ka; kb ] ->
+                let ra = { krid = Z0; kvals = List.map parse_value vs } and rb = { krid = Z0; kvals = List.map parse_value ws } in
+                let ta = ktuple_of ra and tb = ktuple_of rb in
+                let teq = ktuple_eqb ta tb and keq = (ka = kb) in
+                (* the model's keys: equal exactly when the tuples are (C04 injectivity theorems), except for a pair
+                   outside the quantifier (two scalar kinds in one column of a text-keyed window), which is not judged *)
+                let meq = (site_key site ra = site_key site rb) in
+                if teq && not keq then
+                  Printf.sprintf "chk key_split site=%s %s has the keys %s and %s" site (show_tuple ta) ka kb
+                else if (not teq) && keq && not meq then
+                  Printf.sprintf "chk key_collision site=%s %s %s share the key %s" site (show_tuple ta) (show_tuple tb) ka
+                else if teq <> meq then "ok"
+                else if not teq then "ok nt" else "ok"
+            | _ -> "bad line")
+       | _ -> "bad line")
   | "K" :: site :: ncols :: rest ->
       let ncols = int_of_string ncols in
       let (vs, r) = take ncols rest in
       let impl = (match r with [h] -> h | _ -> failwith "bad K line") in
       let row = { krid = Z0; kvals = List.map parse_value vs } in
-      let model = (match site with
-                   | "agg" -> agg_key row | "cnt" -> cnt_key row | "ses" -> ses_key row | "glb" -> glb_key row
-                   | "part" -> k_key_part (List.hd (ktuple_of row))
-                   | _ -> failwith "bad site") in
+      let model = site_key site row in
       if hex_of_bytes model <> impl then "diff key_" ^ site ^ " model=" ^ hex_of_bytes model
       else if List.exists (fun t -> t = "m" || t = "n" || String.length t > 3) vs then "ok nt" else "ok"
   | "G" :: _tag :: ncols :: nrows :: rest ->
